@@ -77,6 +77,10 @@ func (c *dcopyCase) source(pkg string) string {
 		case "s":
 			fmt.Fprintf(&b, "type T%d%s struct {\n", i, tp)
 			for j, f := range d.Fields {
+				if f == "b" {
+					b.WriteString("\t_ int\n") // a blank field: part of the struct, but nothing can refer to it
+					continue
+				}
 				fmt.Fprintf(&b, "\tF%d %s\n", j, dGoType(f))
 			}
 			b.WriteString("}\n\n")
@@ -104,6 +108,8 @@ func (c *dcopyCase) modelDecls() string {
 		var fs []string
 		for _, f := range d.Fields {
 			switch f[0] {
+			case 'b':
+				// no statement can be emitted for a blank field: for the model it is not there
 			case 'a', 'f', 'P':
 				fs = append(fs, "p")
 			case 'L':
@@ -254,7 +260,9 @@ func fill(v reflect.Value, c *int) {
 	switch v.Kind() {
 	case reflect.Struct:
 		for i := 0; i < v.NumField(); i++ {
-			fill(v.Field(i), c)
+			if v.Field(i).CanSet() { // not a blank field
+				fill(v.Field(i), c)
+			}
 		}
 	case reflect.Slice:
 		if sparse { // allocated but empty
@@ -313,7 +321,7 @@ func diffPaths(a, b reflect.Value, path string, out *[]string) {
 		}
 		return
 	}
-	if !reflect.DeepEqual(a.Interface(), b.Interface()) {
+	if a.CanInterface() && !reflect.DeepEqual(a.Interface(), b.Interface()) {
 		*out = append(*out, path)
 	}
 }
@@ -726,6 +734,8 @@ func genDcopy(r *Rng) *dcopyCase {
 					d.Fields = append(d.Fields, "P")
 				case choice == 7:
 					d.Fields = append(d.Fields, Pick(r, []string{"a", "f"}))
+				case choice == 1 && r.Chance(20):
+					d.Fields = append(d.Fields, "b")
 				case choice <= 1:
 					d.Fields = append(d.Fields, "p")
 				case choice == 2:
@@ -811,7 +821,7 @@ func init() {
 			Name: "graphs", Quick: 500, Thorough: 4000, New: func() Case { return &dcopyCase{} },
 			Gen:      func(r *Rng, i int) Case { return genDcopy(r) },
 			BatchRun: dcopyBatch, ShrinkBudget: 25, MaxShrinks: 6,
-			Rule: "packages of 2–7 declarations: structs with int, []int, map[string]int, error, any, unnamed-interface, same-package named (struct / defined map / defined scalar / defined interface) and instantiated-generic fields, generic structs with bare type-parameter fields, defined maps and scalars, tagged and untagged dependencies, the gengo:deepcopy:interfaces tag; the real generator run twice (100 packages per Execute), the Go compiler after each run, and one probe program per batch that fills every enabled type twice — with allocated but empty containers, then with non-empty ones — at every depth, calls the generated DeepCopy, requires reflect.DeepEqual, mutates every slice and map reachable in the copy and compares the original with an identically filled twin; compared with the model: emitted methods in order, statement form per field, compiles or not, on both runs; oracle: compiles on both runs, identical output, nil receiver gives nil, equal, nothing shared",
+			Rule: "packages of 2–7 declarations: structs with int, blank (`_ int`), []int, map[string]int, error, any, unnamed-interface, same-package named (struct / defined map / defined scalar / defined interface) and instantiated-generic fields, generic structs with bare type-parameter fields, defined maps and scalars, tagged and untagged dependencies, the gengo:deepcopy:interfaces tag; the real generator run twice (100 packages per Execute), the Go compiler after each run, and one probe program per batch that fills every enabled type twice — with allocated but empty containers, then with non-empty ones — at every depth, calls the generated DeepCopy, requires reflect.DeepEqual, mutates every slice and map reachable in the copy and compares the original with an identically filled twin; compared with the model: emitted methods in order, statement form per field, compiles or not, on both runs; oracle: compiles on both runs, identical output, nil receiver gives nil, equal, nothing shared",
 		},
 	}})
 }
